@@ -321,6 +321,8 @@ def accepted_inputs(run, n_s1, n_honest, n_struct, pointer_free=False, adversari
     # transformations at the caps (16 pointers, 255-byte names, dense options) as well
     if adversarial:
         pk += [p for p in vlib.vdrive_gen("adversarial", sd + 13, 40) if len(p) < 12000]
+        # pointer layouts through never-validated bytes, mid-label targets, the header (the accepted ones of Gen_Ptr)
+        pk += gen_tla(run, "Gen_Ptr", "Gen_Ptr.cfg")[(sd % 9)::(9 if quick(run) else 2)]
     pk += seed_packets()
     return dedupe(pk)
 
